@@ -13,13 +13,13 @@ import (
 // through `go build -tags verif -overlay`; never part of /repo.
 //
 // Unexported names touched:
-//   InMemCollector.{workers, tracesToSend, sendTracesWG, sendTraces, getWorkerIDForTrace, hostname}
+//   InMemCollector.{workers, tracesToSend, getWorkerIDForTrace, hostname}
 //   CollectorWorker.{pause, reload, cache, datasetSamplers, processSpan, sendExpiredTracesInCache}
 //   sendableTrace (opaque), hashSeed
 //
-// The harness owns the schedule: every worker is parked with the code's own pause channel, the
-// sendTraces goroutine started by Start() is ended (its channel is closed and waited for) and the
-// real sendTraces() body is then run synchronously on one decided trace at a time.
+// The harness owns the schedule: every worker is parked with the code's own pause channel; the
+// sendTraces goroutine started by Start() lives for the whole case and is handed one decided trace
+// at a time (a sentinel trace synchronises with it).
 
 // VerifDecorateDecision is what a sampler answered for a trace.
 type VerifDecorateDecision struct {
@@ -52,19 +52,38 @@ func (s *verifDecorateSampler) Start() error                       { return nil 
 
 type VerifDecorateCtl struct {
 	i       *InMemCollector
+	orig    chan sendableTrace // the channel the collector's own sendTraces goroutine ranges over
+	held    chan sendableTrace // where send() puts decided traces once the gate is installed
 	pending []sendableTrace
 	rel     []chan struct{}
 }
 
-// VerifDecorateTakeOver parks the workers and takes the place of the sendTraces goroutine.
+// VerifDecorateTakeOver parks the workers.  The sendTraces goroutine started by Start() stays alive
+// for the whole case, as in the real collector; after one Barrier round trip (which proves it is
+// ranging over the collector's own channel) Gate() points the collector's field at a holding
+// channel, and Drain hands one decided trace at a time to the goroutine.
 func VerifDecorateTakeOver(i *InMemCollector) *VerifDecorateCtl {
-	c := &VerifDecorateCtl{i: i}
+	c := &VerifDecorateCtl{i: i, orig: i.tracesToSend}
 	c.Park()
-	close(i.tracesToSend)
-	i.sendTracesWG.Wait()
-	i.tracesToSend = make(chan sendableTrace, 4096)
 	return c
 }
+
+// Barrier pushes a one-span sentinel trace to the sendTraces goroutine; when the transmission
+// sees that span, every trace handed over before it has been forwarded completely.
+func (c *VerifDecorateCtl) Barrier(sentinel *types.Span) {
+	tr := &types.Trace{TraceID: sentinel.TraceID}
+	tr.AddSpan(sentinel)
+	c.orig <- sendableTrace{Trace: tr}
+}
+
+// Gate must be called while the sendTraces goroutine is idle (right after a Barrier round trip).
+func (c *VerifDecorateCtl) Gate() {
+	c.held = make(chan sendableTrace, 4096)
+	c.i.tracesToSend = c.held
+}
+
+// Restore points the collector back at its own channel so that Stop() closes the right one.
+func (c *VerifDecorateCtl) Restore() { c.i.tracesToSend = c.orig }
 
 func (c *VerifDecorateCtl) Park() {
 	c.rel = c.rel[:0]
@@ -139,7 +158,7 @@ func (c *VerifDecorateCtl) Decide(tid string, stub *VerifDecorateDecision) (foun
 	w.sendExpiredTracesInCache(context.Background(), now)
 	for {
 		select {
-		case t := <-c.i.tracesToSend:
+		case t := <-c.held:
 			c.pending = append(c.pending, t)
 			queued++
 			continue
@@ -150,21 +169,15 @@ func (c *VerifDecorateCtl) Decide(tid string, stub *VerifDecorateDecision) (foun
 	return true, rec.last, queued
 }
 
-// Drain runs the real sendTraces() on the oldest decided trace.
+// Drain hands the oldest decided trace to the collector's own sendTraces goroutine (follow it with
+// a Barrier to know when it has been forwarded).
 func (c *VerifDecorateCtl) Drain() (tid string, ok bool) {
 	if len(c.pending) == 0 {
 		return "", false
 	}
 	t := c.pending[0]
 	c.pending = c.pending[1:]
-	ch := make(chan sendableTrace, 1)
-	ch <- t
-	close(ch)
-	saved := c.i.tracesToSend
-	c.i.tracesToSend = ch
-	c.i.sendTracesWG.Add(1)
-	c.i.sendTraces()
-	c.i.tracesToSend = saved
+	c.orig <- t
 	return t.TraceID, true
 }
 
